@@ -124,6 +124,11 @@ def parse_family(tier, checks, name_prefix='', kinds=('String', 'SmallString'), 
                 for a in lens(k, 1):
                     for b in lens(k, 1):
                         add(T, fill(pr, a, b))
+            # two qualifiers with free keys (ordering of keys that differ in '_', '-', '.', digits, letters)
+            add(T, ['pkg:t/n?', ('hole', 'h', 2), '=v&', ('hole', 'g', 2), '=w'])
+            add(T, ['pkg:t/n?', ('hole', 'h', 1), '=v&', ('hole', 'g', 2), '=w'])
+            if th:
+                add(T, ['pkg:t/n?a', ('hole', 'h', 2), '=v&a', ('hole', 'g', 2), '=w'])
             for n in lens(5 if th else 4, 1):
                 add(T, ['pkg:t/n?checksum=', ('hole', 'h', n)])
             for n in lens(3 if th else 2, 1):
@@ -209,6 +214,8 @@ def build_family(tier, checks, kinds=('String', 'Purl'), name_prefix=''):
             if n >= 1:
                 add(T, ty, 'n', [('with_qualifier', h, 'v')])
                 add(T, ty, 'n', FULL + [('with_qualifier', h, 'v')])
+                if n == 2:
+                    add(T, ty, 'n', [('with_qualifier', h, 'v'), ('with_qualifier', ('hole', 'g', 2), 'w')])
         if T != 'Purl':
             for n in lens(m):
                 add(T, ('hole', 'h', n), 'n', [])
